@@ -431,8 +431,9 @@ def check_property(prop_id, obls, tier, explanation, level='model_checking', tru
         print('%s tier=%s obligations=%d pass=%d known=%d violations=%d inconclusive=%d broken=%d wall=%.0fs' % (
             prop_id, tier, len(results), npass, len(known), len(violations), len(inconclusive), len(broken),
             time.time() - t0))
-        write_evidence(prop_id, tier, seed, level, results, obls, explanation, trusted or [], assumptions or [],
-                       known, violations, time.time() - t0)
+        if not os.environ.get('VF_NO_EVIDENCE'):
+            write_evidence(prop_id, tier, seed, level, results, obls, explanation, trusted or [], assumptions or [],
+                           known, violations, time.time() - t0)
         return rc
     finally:
         shutil.rmtree(workdir, ignore_errors=True)
